@@ -21,7 +21,9 @@ def history(rng, length):
     for _ in range(length):
         r = rng.random()
         if r < .12:
-            what = rng.choice(['keep_alive', 'pass_worker_id', 'shared_objects', 'use_worker_state'])
+            # (while a lazy call is open its workers keep the extras they were started with: the harness cannot tell which
+            # extras a running function receives, so pool settings are only changed between calls)
+            what = rng.choice(['keep_alive', 'pass_worker_id', 'shared_objects', 'use_worker_state']) if not open_gen else 'keep_alive'
             val = rng.random() < .5
             ops.append({'op': 'set', 'what': what, 'value': val})
             if what == 'keep_alive':
